@@ -2,5 +2,6 @@ SPECIFICATION Spec
 CONSTANTS Devs = {}
           Both = FALSE
           ScenSet <- ScenQuick
+          FdDepth = 2
 INVARIANTS TypeOK LockSafety AckedWriteVisible FlushedRootVisible NoStuck
 CHECK_DEADLOCK TRUE
